@@ -79,15 +79,16 @@ def reuse_after_failure(ctx):
     """second execution on the same Scheduler after one that failed while limited jobs were in flight (oracle only)"""
     import ctl_sched
     for n_slow in (1, 2):
-        for lim in (1, 2):
+        for lim in (1, 2, None):          # None: the limit name is not configured at all (one unit by default)
+            cfg = {"r0": lim} if lim else {}
             p1 = base.mk_prog([(False, [dict(callee=1)] * 0 + [dict(callee=1 + i) for i in range(n_slow)] + [dict(callee=n_slow + 1)], None)] +
-                              [(False, [], ["r0"]) for _ in range(n_slow)] + [(True, [], None)], {"r0": lim})
-            p2 = base.mk_prog([(False, [dict(callee=1), dict(callee=1, scope="NONE")], None), (False, [], ["r0"])], {"r0": lim})
-            sched = ctl_sched.make_scheduler(None, limits={"r0": lim})
+                              [(False, [], ["r0"]) for _ in range(n_slow)] + [(True, [], None)], cfg)
+            p2 = base.mk_prog([(False, [dict(callee=1), dict(callee=1, scope="NONE")], None), (False, [], ["r0"])], cfg)
+            sched = ctl_sched.make_scheduler(None, limits=cfg)
             # complete the root, then the failing job first: the limited jobs are abandoned in flight
             st1, _, ctl1, _ = sc.run_real(p1, script=["p", "c0", "p"] + ["p"] * (n_slow + 1) + ["c%d" % (n_slow + 1)] + ["p"] * 6, sched=sched)
             held = dict(sched.limits_used)
-            st2, pay2, ctl2, _ = sc.run_real(p2, rng=random.Random(n_slow * 7 + lim), sched=sched)
+            st2, pay2, ctl2, _ = sc.run_real(p2, rng=random.Random(n_slow * 7 + (lim or 0)), sched=sched)
             ctx.case(key=("reuse", n_slow, lim), sample={"first": st1, "held_after_first": held, "second": st2}, kind="scheduler-reuse",
                      status=st2)
             if st2 == "hang":
